@@ -104,7 +104,7 @@ theorem pv_cons {s' : St CHeap} {b : Bool} (lf : LF s0.heap) (sd : StackDisc s0)
   show s0.stack.sp - 1 - 1 ≤ s0.stack.sp
   omega
 
-theorem pv_vpush {s' : St CHeap} {b : Bool} (ep : ExtProc ext) (g : GoodI s0) (p : PInv s0)
+theorem pv_vpush {s' : St CHeap} {b : Bool} (ep : ExtProc ext) (g : GoodI s0) (lf : LF s0.heap) (p : PInv s0)
     (hx : exec (concreteOps ext) .vpushAcc (nx s0) = .ok (s', b)) : PInv s' := by
   unfold exec at hx
   obtain ⟨⟨v, st1⟩, hp1, hx⟩ := bind_ok hx
@@ -125,7 +125,7 @@ theorem pv_vpush {s' : St CHeap} {b : Bool} (ep : ExtProc ext) (g : GoodI s0) (p
         | val w => exact neB_of_valPB (p.hp.cells q _ hc)
         | _ => rfl
     | _ => exact nv
-  obtain ⟨hp', es⟩ := ep.vpush s0.heap (deref s0.heap v) s0.acc h' p.hp g.accv p.acc h2
+  obtain ⟨hp', es⟩ := ep.vpush s0.heap (deref s0.heap v) s0.acc h' p.hp lf g.accv p.acc h2
   refine ⟨hp', es.neB nvec, ((p.sm.resp (st' := { s0.stack with sp := s0.stack.sp - 1 }) rfl (.inr ?_)).heap es).stk⟩
   show s0.stack.sp - 1 ≤ s0.stack.sp
   omega
